@@ -36,22 +36,35 @@ type viVec struct {
 
 func viEncode(w int, u uint64) (wbytes []byte, wn int64, werr error, wtb []byte, wtbn int, ln int) {
 	var buf bytes.Buffer
-	tb := make([]byte, 16)
+	tb := bytes.Repeat([]byte{0xAA}, 16) // the caller's buffer: what lies behind the returned count stays the caller's
+	var exact func()
 	if w == 2 {
 		v := pk.VarInt(int32(uint32(u)))
 		wn, werr = v.WriteTo(&buf)
 		wtbn = v.WriteToBytes(tb)
 		ln = v.Len()
+		exact = func() { v.WriteToBytes(make([]byte, ln)) }
 	} else {
 		v := pk.VarLong(int64(u))
 		wn, werr = v.WriteTo(&buf)
 		wtbn = v.WriteToBytes(tb)
 		ln = v.Len()
+		exact = func() { v.WriteToBytes(make([]byte, ln)) }
 	}
 	if wtbn < 0 || wtbn > 16 {
 		wtbn = 16
 	}
-	return buf.Bytes(), wn, werr, tb[:wtbn], wtbn, ln
+	out := tb[:wtbn]
+	for _, b := range tb[wtbn:] {
+		if b != 0xAA { // bytes behind the encoding were written: they are reported as part of the output
+			out = tb
+			break
+		}
+	}
+	if p, _ := catch(exact); p && ln >= 1 && ln <= 10 { // a buffer of exactly Len() bytes must be enough
+		out = append([]byte{}, 0xEE)
+	}
+	return buf.Bytes(), wn, werr, out, wtbn, ln
 }
 
 type viDecRes struct {
